@@ -46,29 +46,26 @@ func main() {
 
 // ------------------------------------------------------------------ op parsing (mirrors the Lean driver)
 
+// okSeg: one path component, [a-z0-9.]+ but neither "." nor ".." (hidden names are ordinary components)
 func okSeg(t string) bool {
-	if t == "" {
+	if t == "" || t == "." || t == ".." {
 		return false
 	}
 	for _, c := range t {
-		if !(c >= 'a' && c <= 'z' || c >= '0' && c <= '9') {
+		if !(c >= 'a' && c <= 'z' || c >= '0' && c <= '9' || c == '.') {
 			return false
 		}
 	}
 	return true
 }
 
-// okFileName: [dir/[dir/]]name.yaml, every component [a-z0-9]+
+// okFileName: [dir/[dir/]]name, up to three components
 func okFileName(n string) bool {
 	parts := strings.Split(n, "/")
 	if len(parts) > 3 {
 		return false
 	}
-	last := parts[len(parts)-1]
-	if !strings.HasSuffix(last, ".yaml") || !okSeg(last[:len(last)-5]) {
-		return false
-	}
-	for _, d := range parts[:len(parts)-1] {
+	for _, d := range parts {
 		if !okSeg(d) {
 			return false
 		}
